@@ -23,7 +23,7 @@ ANCHOR_FILES = ['cirbo/core/circuit/circuit.py', 'cirbo/core/circuit/validation.
 ASSUMPTIONS = ['own reachability closure / DFS over the operand relation is the definition of reachable / cyclic']
 REQUIRED = {'mon:top_sort.checked': 200, 'mon:dfs.checked': 500, 'mon:bfs.checked': 500,
             'mon:check_circuit_has_no_cycles.checked': 100, 'cycle:raised_expected': 20, 'cycle:clean_expected': 20,
-            'cycle:unreachable_cycle': 3}
+            'cycle:unreachable_cycle': 3, 'peeking_hooks': 200}
 
 CUR = {'ctx': None, 'case': None}
 
@@ -375,14 +375,28 @@ def check_case(case, ctx):
                         kw['topsort_unvisited'] = True
                     # caller-supplied hooks in random combinations (the monitor chains to them)
                     seen = []
+                    # hooks either look at the hooked gate only, or consult the state mapping they are handed for the
+                    # gate's neighbours / all gates (reference counting, "are all my users done?" style hooks)
+                    peek = rng.choice(['none', 'none', 'neighbours', 'all'])
+
+                    def look(g, s_, _peek=peek):
+                        seen.append(g.label)
+                        if _peek == 'neighbours':
+                            for l in list(users_map.get(g.label, [])) + list(ops_map.get(g.label, ())):
+                                s_[l]
+                        elif _peek == 'all':
+                            for l in labels:
+                                s_[l]
+                    if peek != 'none':
+                        ctx.count('peeking_hooks')
                     if rng.random() < 0.5:
-                        kw['on_enter_hook'] = lambda g, s_: seen.append(g.label)
+                        kw['on_enter_hook'] = look
                     if rng.random() < 0.5:
-                        kw['on_discover_hook'] = lambda g, s_: None
+                        kw['on_discover_hook'] = look if rng.random() < 0.5 else (lambda g, s_: None)
                     if mode == 'dfs' and rng.random() < 0.5:
-                        kw['on_exit_hook'] = lambda g, s_: seen.append(g.label)
+                        kw['on_exit_hook'] = look
                     if rng.random() < 0.5:
-                        kw['unvisited_hook'] = lambda g, s_: seen.append(g.label)
+                        kw['unvisited_hook'] = look
                     fn = c.dfs if mode == 'dfs' else c.bfs
                     _consume(fn(st, **kw) if st is not None or rng.random() < 0.5 else fn(**kw))
                     eff = st if st is not None else (list(net.inputs) if inverse else list(net.outputs))
